@@ -79,6 +79,7 @@ type vdNet struct {
 	Base int64  `json:"base"`
 	Hb   int    `json:"hb"`
 	Hi   string `json:"hi"`
+	Ho   int64  `json:"ho"`
 }
 type vdGroup struct {
 	W    uint32  `json:"w"`
@@ -125,13 +126,14 @@ type vdLine struct {
 }
 
 func (n vdNet) cidr() string {
+	// as the configuration writes it: possibly with host bits set
 	if n.Fam == 4 {
 		var b [4]byte
-		binary.BigEndian.PutUint32(b[:], uint32(n.Base))
+		binary.BigEndian.PutUint32(b[:], uint32(n.Base+n.Ho))
 		return fmt.Sprintf("%s/%d", netip.AddrFrom4(b), 32-n.Hb)
 	}
 	a := netip.MustParseAddr(n.Hi).As16()
-	binary.BigEndian.PutUint32(a[12:], uint32(n.Base))
+	binary.BigEndian.PutUint32(a[12:], uint32(n.Base+n.Ho))
 	return fmt.Sprintf("%s/%d", netip.AddrFrom16(a), 128-n.Hb)
 }
 
